@@ -515,6 +515,31 @@ def run(case, ctx):
                 continue
             km = check_query(ctx, b, sh, assign, en, call, B)
             queries.append((assign, km))
+            # the same bit field with only some of the values given: the mask
+            # is the union of the fields that are present THEN (a scope whose
+            # selector has no value yet contributes nothing)
+            import random as _r
+            prng = _r.Random(len(queries) * 7919 + L + len(assign))
+            part = {k: v for k, v in assign.items() if prng.random() < .6}
+            shrinking = True
+            while shrinking:
+                shrinking = False
+                present = {f.name for f in sh.enabled(part)}
+                for k in list(part):
+                    if k not in present:
+                        del part[k]
+                        shrinking = True
+            if len(part) < len(assign):
+                ok, bp = call("bf(**partial)", lambda: bf(**part))
+                check(ok, "values-rejected", "bf(**%r): %s" % (part, bp))
+                ok, pm = call("get_mask", bp.get_mask)
+                want_pm = 0
+                for f in sh.enabled(part):
+                    want_pm |= bits(*f.loc)
+                ctx.hit("partial_mask")
+                check(ok and pm == want_pm, "mask-not-union",
+                      "with only %r given the mask is %r, the fields present "
+                      "then cover %#x" % (part, pm, want_pm), assign=assign)
             # a value, once given, cannot be given again on the derived
             # bit field; unknown fields are refused; equality is by value
             if assign:
